@@ -171,8 +171,8 @@ def audit(roots=None):
                 depth += 1  # treat Module..End like sections for nesting only
             if depth == 0 and re.match(r"\s*(Variable|Variables|Hypothesis|Hypotheses|Context)\b", line):
                 hits.append("%s:%d: section-less %s" % (os.path.relpath(f, VERIF), ln, line.strip()))
-    proj = open(os.path.join(COQ, "_CoqProject")).read()
-    if AUDIT_RE.search(proj):
+    pj = os.path.join(COQ, "_CoqProject")
+    if os.path.exists(pj) and AUDIT_RE.search(open(pj).read()):
         hits.append("_CoqProject: forbidden flag")
     return len(files), hits
 
